@@ -798,6 +798,11 @@ func (z *Decimal) FMA(x, y, u *Decimal) *Decimal {
 	z0.neg = x.neg != y.neg
 
 	if x.form == finite && y.form == finite {
+		if u.form == inf {
+			// finite product plus ±Inf, even if the product would
+			// overflow the exponent range when stored in a Decimal
+			return z.Set(u)
+		}
 		// x * y (common case)
 		// prevent rounding in umul
 		prec := z0.prec
